@@ -381,6 +381,10 @@ var gameStarts = []string{
 	"r3k2r/8/8/3BB3/3bb3/8/8/R3K2R w KQkq - 0 1",
 	"r3k2r/2N2N2/8/8/8/8/2n2n2/R3K2R b KQkq - 0 1",
 	"r3k2r/8/8/8/Q6q/8/8/R3K2R w KQkq - 0 1",
+	// clocks beyond 100 are legitimate (the draw has to be claimed, play goes on): around the limits of narrow integer types
+	"8/8/8/8/8/1k6/8/K1B2b2 w - - 250 200", "8/8/8/8/8/1k6/8/K1B2b2 b - - 254 200", "r3k2r/8/8/8/8/8/8/R3K2R w KQkq - 253 300",
+	"8/8/8/8/8/1k6/8/K1B2b2 w - - 300 400", "4k3/8/8/8/8/8/4P3/R3K3 w Q - 127 100", "8/8/8/8/8/1k6/8/K1B2b2 w - - 65534 40000",
+	"4k3/8/8/8/8/8/8/R3K3 w - - 32766 20000",
 }
 
 func genGame(o *Out, r *rand.Rand, thorough bool) {
